@@ -508,50 +508,65 @@ fn c12_outcome(rng: &mut Rng, kind: &str, which: usize, tid: u16, unit: u8) -> S
     let good_req = Request::ReadHoldingRegisters(rng.u16(), 2);
     let good_pdu = vec![0x03, 0x04, rng.u8(), rng.u8(), rng.u8(), rng.u8()];
     let rq = request(&good_req);
-    match which {
+    // the bytes of the reply proper
+    let reply: Vec<u8> = match which {
         // good reply
-        0 => format!("call {rq} r=d{}", hex_raw(&frame(kind, tid, unit, &good_pdu))),
+        0 | 7 => frame(kind, tid, unit, &good_pdu),
         // exception
-        1 => format!("call {rq} r=d{}", hex_raw(&frame(kind, tid, unit, &[0x83, 0x02]))),
+        1 => frame(kind, tid, unit, &[0x83, 0x02]),
         // wrong header
-        2 => format!("call {rq} r=d{}", hex_raw(&frame(kind, tid.wrapping_add(1), unit.wrapping_add(1), &good_pdu))),
+        2 => frame(kind, tid.wrapping_add(1), unit.wrapping_add(1), &good_pdu),
         // wrong function
-        3 => format!("call {rq} r=d{}", hex_raw(&frame(kind, tid, unit, &[0x04, 0x02, 0x00, 0x01]))),
+        3 => frame(kind, tid, unit, &[0x04, 0x02, 0x00, 0x01]),
         // undecodable frame
         4 => {
             if kind == "tcp" && rng.bool() {
                 let mut f = frame(kind, tid, unit, &good_pdu);
                 f[3] = 0x09; // protocol id
-                format!("call {rq} r=d{}", hex_raw(&f))
+                f
             } else {
                 // well-framed, but the PDU is malformed (bad coil value)
-                format!("call {rq} r=d{}", hex_raw(&frame(kind, tid, unit, &[0x05, 0x00, 0x01, 0x12, 0x34])))
+                frame(kind, tid, unit, &[0x05, 0x00, 0x01, 0x12, 0x34])
             }
         }
         // noise beyond the retry limit (RTU) / invalid length field (TCP)
         5 => {
             if kind == "tcp" {
-                format!("call {rq} r=d{}", hex_raw(&[0, 1, 0, 0, 0, 0, 9, 9, 9]))
+                vec![0, 1, 0, 0, 0, 0, 9, 9, 9]
             } else {
-                let noise: Vec<u8> = (0..30).map(|_| 0x80 | (rng.u8() & 0x40)).collect();
-                format!("call {rq} r=d{}", hex_raw(&noise))
+                (0..30).map(|_| 0x80 | (rng.u8() & 0x40)).collect()
             }
         }
         // transient read error
-        6 => format!("call {rq} r=xk{}", 1 + rng.below(2)),
-        // good reply followed by surplus bytes in the same read
-        7 => {
-            let mut f = frame(kind, tid, unit, &good_pdu);
-            f.extend(rng.bytes_in(1, 12));
-            format!("call {rq} r=d{}", hex_raw(&f))
-        }
+        6 => return format!("call {rq} r=xk{}", 1 + rng.below(2)),
         // the reply breaks off after its head (address, function, byte count, …) with a read error
         _ => {
             let f = frame(kind, tid, unit, &good_pdu);
             let k = rng.range(3, f.len() - 1);
-            format!("call {rq} r=d{},xk1", hex_raw(&f[..k]))
+            return format!("call {rq} r=d{},xk1", hex_raw(&f[..k]));
+        }
+    };
+    // two modifiers, independent of the outcome: surplus bytes behind the reply in the same
+    // read (always for outcome 7), and the way the reply is cut into reads
+    let mut data = reply.clone();
+    if which == 7 || rng.chance(1, 4) {
+        if rng.bool() {
+            data.extend(rng.bytes_in(1, 12));
+        } else {
+            // a complete stale frame
+            data.extend(frame(kind, tid.wrapping_sub(1), unit, &good_pdu));
         }
     }
+    let head = if kind == "tcp" { 7 } else { 3 };
+    let chunks: Vec<Vec<u8>> = match rng.below(4) {
+        0 if reply.len() > head => vec![data[..head].to_vec(), data[head..].to_vec()],
+        1 => {
+            let parts = rng.composition(data.len());
+            chunk(&data, &parts)
+        }
+        _ => vec![data],
+    };
+    format!("call {rq} r={}", chunks_tok(&chunks))
 }
 
 const C12_FINAL_PDU: [u8; 4] = [0x03, 0x02, 0xBE, 0xEF];
@@ -605,6 +620,67 @@ pub fn mon_c12(out: &mut Out, l: &str, r: &str) {
     out.check(got == "ok RHR:BEEF", || format!("the final exchange was written and its matching reply delivered, but the call returned `{got}` (earlier results: {:?})", res[..i].iter().map(|s| outcome_of(s)).collect::<Vec<_>>()), l);
 }
 
+// ================================================================ C05 (after a rejected header)
+
+/// a frame with an invalid MBAP header (protocol id, zero length) or an oversized length that
+/// arrives in pieces – complete head first – is reported as an error; the well-formed reply to
+/// the next request, of another length, must then be delivered intact
+pub fn gen_c05_after_reject(out: &mut Out, rng: &mut Rng, thorough: bool) {
+    for _ in 0..(if thorough { 3000 } else { 300 }) {
+        let unit = rng.u8();
+        let n = rng.range(1, 30);
+        let mut bad = frame("tcp", 0, unit, &spec::response_bytes(&Response::ReadHoldingRegisters(rng.words(n))).unwrap());
+        match rng.below(3) {
+            0 => bad[3] = 1 + rng.u8() % 255,
+            1 => bad[2] = 1 + rng.u8() % 255,
+            _ => {
+                bad[4] = 0;
+                bad[5] = 0;
+            }
+        }
+        let k = rng.range(7, bad.len() - 1);
+        let chunks = match rng.below(3) {
+            0 => vec![bad[..7].to_vec(), bad[7..].to_vec()],
+            1 => vec![bad[..k].to_vec(), bad[k..].to_vec()],
+            _ => {
+                let parts = rng.composition(bad.len());
+                chunk(&bad, &parts)
+            }
+        };
+        let reply2 = frame("tcp", 1, unit, &[0x03, 0x02, 0xCA, 0xFE]);
+        monitor_line(
+            out,
+            &format!(
+                "cli tcp {} | call RHR:0000:{} r={} | call RHR:0102:0001 r=d{}",
+                hex8(unit),
+                hex16(n as u16),
+                chunks_tok(&chunks),
+                hex_raw(&reply2)
+            ),
+        );
+    }
+}
+
+pub fn mon_c05_cli(out: &mut Out, l: &str, r: &str) {
+    let (head, ops) = ops_of(l);
+    if head[0] != "cli" || head[1] != "tcp" || ops.len() != 2 || ops[1].name != "call" {
+        return;
+    }
+    let res = parts(r);
+    if res.len() != 2 {
+        return;
+    }
+    let (t2, u2) = expected_hdr(&head, &ops, 1);
+    let r2 = parse_events(field("r", &ops[1].fields));
+    if r2.data != frame("tcp", t2, u2, &[0x03, 0x02, 0xCA, 0xFE]) {
+        return;
+    }
+    let got1 = outcome_of(res[0]);
+    let got2 = outcome_of(res[1]);
+    out.check(!got1.starts_with("ok "), || format!("a frame with an invalid header was delivered: `{got1}`"), l);
+    out.check(got2 == "ok RHR:CAFE", || format!("the well-formed frame after a rejected one was not delivered intact: `{got2}`"), l);
+}
+
 // ================================================================ C13
 
 pub fn gen_c13(out: &mut Out, rng: &mut Rng, thorough: bool) {
@@ -651,6 +727,14 @@ pub fn gen_c13(out: &mut Out, rng: &mut Rng, thorough: bool) {
                     };
                     monitor_line(out, &format!("{head} errno={errno} | call {rq} r={chunks}{fault}"));
                 }
+            }
+        }
+        // every kind of read error (Interrupted and WouldBlock included) at the start, in the middle
+        // and just before the end of the reply, with the rest of the reply ready behind the fault
+        for k in 0..crate::wire::INJECTED.len() {
+            for j in [0, reply.len() / 2, reply.len() - 1] {
+                let pre = if j == 0 { String::new() } else { format!("d{},", hex_raw(&reply[..j])) };
+                monitor_line(out, &format!("{head} | call {rq} r={pre}xk{k},d{}", hex_raw(&reply[j..])));
             }
         }
         // request cut at every offset by write errors / zero-length writes
@@ -746,22 +830,33 @@ pub fn mon_c13(out: &mut Out, l: &str, r: &str) {
     if !pe.has_fault {
         return;
     }
-    // a reply cut short by end of stream or a read error: never success
+    // a reply cut short by end of stream or a read error: never success – whatever may be
+    // readable *behind* the fault (a call must not read on past a failure)
     let revs = field("r", &o.fields);
-    let last = revs.rsplit(',').next().unwrap_or("");
+    let mut before: Vec<u8> = vec![];
+    let mut last = "";
+    for e in revs.split(',') {
+        if e == "e" || e.starts_with('x') {
+            last = e;
+            break;
+        }
+        if let Some(d) = e.strip_prefix('d') {
+            before.extend(p_bytes(d).unwrap_or_default());
+        }
+    }
     // only judge cuts that fall strictly inside (or before) the one reply frame
     let complete = if kind == "tcp" {
-        matches!(spec::split_mbap(&pe.data).first(), Some(MbapItem::Frame(..)))
+        matches!(spec::split_mbap(&before).first(), Some(MbapItem::Frame(..)))
     } else {
-        split_rtu_clean(&pe.data, false).is_some_and(|v| !v.is_empty())
+        split_rtu_clean(&before, false).is_some_and(|v| !v.is_empty())
     };
     if complete {
         return;
     }
-    out.check(got.starts_with("tr:"), || format!("reply cut at offset {} by `{last}` but the call returned `{got}`", pe.data.len()), l);
+    out.check(got.starts_with("tr:"), || format!("reply cut at offset {} by `{last}` but the call returned `{got}`", before.len()), l);
     if let Some(k) = last.strip_prefix('x') {
         out.check(got == format!("tr:{k}"), || format!("read error `{k}` must be returned unchanged, got `{got}`"), l);
-    } else if last == "e" && pe.data.is_empty() {
+    } else if last == "e" && before.is_empty() {
         // orderly end of stream: a closed-connection kind
         let closed = ["tr:bp", "tr:k1", "tr:k2", "tr:ue", "tr:nc"];
         out.check(closed.contains(&got), || format!("orderly end of stream reported as `{got}`, which does not denote a closed connection"), l);
@@ -832,6 +927,27 @@ pub fn gen_c15(out: &mut Out, rng: &mut Rng, thorough: bool) {
     }
 }
 
+/// a call abandoned (or failed) while its request is only partly written leaves bytes in the
+/// write buffer; a disconnect must still do nothing but shut the transport down once
+pub fn gen_c15_stale_wbuf(out: &mut Out, rng: &mut Rng, thorough: bool) {
+    let shut = ["", "s=o", "s=xnc", "s=xbp", "s=xk1", "s=xk3", "s=xto", "s=p,o"];
+    for i in 0..(if thorough { 2000 } else { 200 }) {
+        let kind = if i % 2 == 0 { "tcp" } else { "rtu" };
+        let k = rng.range(1, 6);
+        let first = match rng.below(3) {
+            // dropped while the transport takes no more
+            0 => format!("call RHR:0001:0001 b=1 w=a{k},p"),
+            1 => format!("call RHR:0001:0001 b=2 w=p,a{k},p"),
+            // failed after a partial write
+            _ => format!("call RHR:0001:0001 w=a{k},xk2"),
+        };
+        let so = rng.pick(&shut);
+        // what the transport would do with further writes, should the disconnect try any
+        let w = *rng.pick(&["", " w=a100", " w=xbp", " w=xk1", " w=z"]);
+        monitor_line(out, &format!("cli {kind} {} | {first} | disc {so}{w} | call RHR:0001:0001 | disc", hex8(rng.u8())));
+    }
+}
+
 pub fn mon_c15(out: &mut Out, l: &str, r: &str) {
     let (head, ops) = ops_of(l);
     if head[0] != "cli" {
@@ -856,6 +972,7 @@ pub fn mon_c15(out: &mut Out, l: &str, r: &str) {
                     };
                     out.check(got == expect, || format!("first disconnect with shutdown outcome `{s}`: expected `{expect}` got `{got}`"), l);
                     out.check(sd == 1, || format!("first disconnect shut the transport down {sd} times"), l);
+                    out.check(written(rp).is_empty(), || format!("disconnect wrote to the transport: `{rp}`"), l);
                     disconnected = true;
                 } else {
                     out.check(got == "ok" && sd == 0 && written(rp).is_empty(), || format!("disconnecting again must succeed without touching the transport: `{rp}`"), l);
